@@ -1091,6 +1091,61 @@ pub fn programs(d: &TypeDesc, first: usize) -> Vec<Prog> {
             (vec![], s, code(15))
         });
     }
+    // a payload position written as `_` (the language allows one `_` per pattern: it is
+    // an ordinary binder name): each position in turn is the wildcard, the named ones
+    // must still read their own component (also in a guard) - added after seeded change C02-4
+    if let Access::Variant { variant, rec_payload: None, order, .. } = &d.access {
+        if n >= 2 {
+            let order = order.clone();
+            add!("wildcards".into(), false, Ret::U32, false, |b, _pre| {
+                let mut s = vec![b.let_cons("a", 0)];
+                for j0 in 0..n {
+                    let wild = |j: usize| j == j0;
+                    let (mut binds, comps) = b.bind_main();
+                    for j in 0..n {
+                        if wild(j) {
+                            binds[j] = "_".into();
+                        }
+                    }
+                    let mut body = vec![emit_u8(1)];
+                    for j in 0..n {
+                        if !wild(j) {
+                            body.extend(d.fields[order[j]].emit(comps[order[j]].clone(), &mut b.c));
+                        }
+                    }
+                    let mut arms = vec![arm(Some(variant), binds, None, body)];
+                    arms.extend(b.other_arms());
+                    s.push(st(E::Match(Box::new(var("a")), arms)));
+                    // a guard that reads the last named position; the arm after it names the others
+                    let (mut binds2, comps2) = b.bind_main();
+                    for j in 0..n {
+                        if wild(j) {
+                            binds2[j] = "_".into();
+                        }
+                    }
+                    let last = (0..n).rev().find(|j| !wild(*j)).unwrap();
+                    let guard = bin(BinOp::Ne, comps2[order[last]].clone(), b.val(order[last], false));
+                    // the next arm puts the wildcard on the following position
+                    let j1 = (j0 + 1) % n;
+                    let (mut binds3, comps3) = b.bind_main();
+                    binds3[j1] = "_".into();
+                    let mut body3 = vec![emit_u8(3)];
+                    for j in 0..n {
+                        if j != j1 {
+                            body3.extend(d.fields[order[j]].emit(comps3[order[j]].clone(), &mut b.c));
+                        }
+                    }
+                    let mut arms = vec![
+                        arm(Some(variant), binds2, Some(guard), vec![emit_u8(2)]),
+                        arm(Some(variant), binds3, None, body3),
+                    ];
+                    arms.push(arm(None, vec![], None, vec![emit_u8(4)]));
+                    s.push(st(E::Match(Box::new(var("a")), arms)));
+                }
+                (vec![], s, code(16))
+            });
+        }
+    }
     // lists are shared: push / swap through one copy, read through the other
     add!("list-shared".into(), true, Ret::U32, false, |b, _pre| {
         let mut s = vec![b.let_cons("a", 0), b.let_cons("b", 1), S::Let("l".into(), None, E::ListLit(vec![var("a")])), S::Let("m".into(), None, var("l"))];
